@@ -78,12 +78,19 @@ class Probe(BaseNode):
     def __init__(self, *a, nid=0, **k):
         super().__init__(*a, **k); self.nid = nid
 
+    def init_params(self, rng=None, graph_state=None):
+        # only when the check asks for it (C09 params paths): params drawn from the rng handed to init_params, and used by the step
+        if not getattr(self, "rng_params", False): return super().init_params(rng, graph_state)
+        w = jnp.asarray(jax.random.key_data(rng) if jnp.issubdtype(rng.dtype, jax.dtypes.prng_key) else rng).reshape(-1)[-1] % 97
+        return Out(jnp.asarray(w, dtype=jnp.int32).reshape(1), jnp.array([0.0], dtype=jnp.float32))
+
     def init_state(self, rng=None, graph_state=None): return Out(jnp.array([1 + self.nid], dtype=jnp.int32), jnp.array([0.0], dtype=jnp.float32))
     def init_output(self, rng=None, graph_state=None): return Out(jnp.array([3 + self.nid], dtype=jnp.int32), jnp.array([DEFAULT_F], dtype=jnp.float32))
 
     def step(self, ss):
         tsq = jnp.round(ss.ts * 64).astype(jnp.int32)
         acc = 7 * ss.state.a[0] + 3 * ss.seq + 5 * tsq
+        if getattr(self, "rng_params", False): acc = acc + 11 * ss.params.a[0]
         for name in sorted(ss.inputs.keys()):
             i = ss.inputs[name]
             w = i.seq.shape[0]
@@ -121,6 +128,7 @@ def build(cfg):
                      advance=nd["advance"],
                      scheduling=const.Scheduling.FREQUENCY if nd["sched"] == "FREQ" else const.Scheduling.PHASE, nid=nd["nid"])
         N[n].adaptive = bool(nd.get("adaptive", False))
+        N[n].rng_params = bool(cfg.get("rng_params", False))
     for c, cc in cfg["conns"].items():
         N[cc["in"]].connect(N[cc["out"]], blocking=cc["blocking"], delay=cc["exp"] * T, delay_dist=TableDist.create(cc["delays"]),
                             window=cc["window"], skip=cc["skip"],
